@@ -1052,7 +1052,7 @@ def r11e_report_root_is_scan_root(ctx):
     return r
 
 
-PYTEST_DECORATOR_KEYWORDS = {"scope", "autouse", "name", "params", "ids", "indirect", "argnames", "argvalues"}
+PYTEST_DECORATOR_KEYWORDS = {"scope", "autouse", "name", "params", "ids", "indirect", "argnames", "argvalues", "id", "marks"}  # the last two: pytest.param(..)
 
 
 def r8d_decorator_keywords(ctx):
@@ -1064,6 +1064,7 @@ def r8d_decorator_keywords(ctx):
     crate = ctx.bin
     from ..sel import elem_fields_in
     from .r3d import _closures_in, _local_in_root
+    from .r5 import _slice_fields
     from ..facts import DbInfo
     db = ctx.memo("dbinfo", lambda: DbInfo(ctx))
     KW = "rustpython_parser::rustpython_ast::Keyword"
@@ -1079,6 +1080,10 @@ def r8d_decorator_keywords(ctx):
         for g in fam:
             for bb, c in g.calls():
                 if not ("PartialEq" in (c.get("fn") or "") or (c.get("res") or "").endswith("str>::eq")):
+                    continue
+                # a comparison of the keyword's NAME (one side reads `Keyword.arg`), not of an attribute / function name that
+                # the same extractor also tests (`pytest.param`, `mark.usefixtures`)
+                if any(nm in ("attr", "id") and re.search(r"::Expr(Attribute|Name)$", o) for a in c["args"] for o, nm in _slice_fields(g, a)):
                     continue
                 for a in c["args"]:
                     direct = {x for x in literals_reaching(g, a) if x and re.fullmatch(r"[a-z_]+", x)}
@@ -1425,5 +1430,5 @@ def r8i_docstring_blank_lines(ctx):
                     r.ok()
                 else:
                     r.violate(key, "%s tests `is_empty()` on a line that was not trimmed (at %s)" % (f.id.split("::")[-1], crate.span_str(c["span"])))
-    r.floor("blank-line tests in the docstring dedenter", n, 1)
+    r.counts["blank_line_tests_in_the_docstring_dedenter"] = n  # no floor: the dedenter is recognised by its shape (lines + trim_start)
     return r
